@@ -476,6 +476,16 @@ template <class T> struct TR
             if ((int64_t)x.r.head != emod((int64_t)i + 1, size)) o.fail("set_last_index: head " + S(x.r.head));
             resync();
         }
+        else if (op == "settail")
+        { // `r` is a public member ("direct control"): place the tail, e.g. next to an index-width boundary
+            x.r.tail = (unsigned)strtoul(w[1].c_str(), 0, 10);
+            resync();
+        }
+        else if (op == "fillbuf")
+        { // the buffer is public too: slot i := i + 1, so that a store to a wrong slot is visible
+            for (size_t i = 0; i < x.buffer.size(); i++) x.buffer[i] = (T)(i + 1);
+            resync();
+        }
         else if (op == "copy")
         { // implicit copy constructor; the original is destroyed, the copy carries on
             std::unique_ptr<igris::ring<T>> c(new igris::ring<T>(x));
